@@ -17,6 +17,7 @@ package main
 
 import (
 	"fmt"
+	"go/constant"
 	"go/token"
 	"go/types"
 	"reflect"
@@ -471,7 +472,7 @@ func (e *emitCtx) emit(f *ssa.Function, inlined bool, args, binds []ssa.Value, d
 					}
 				}
 				var binds []ssa.Value
-				bindable := g != nil && len(g.FreeVars) == 0 && g.Parent() == nil
+				bindable := g != nil && len(g.FreeVars) == 0
 				if g != nil && !bindable {
 					// an anonymous function called through the MakeClosure that binds its free variables
 					if mc, isMC := call.Common().Value.(*ssa.MakeClosure); isMC && len(mc.Bindings) == len(g.FreeVars) {
@@ -618,6 +619,7 @@ func (c *Ctx) canonicalise(depth int) *canonStats {
 		il.recover[f] = f.Recover
 	}
 	il.computeInlinable()
+	canonOrigOf = il.origOf
 	st := &canonStats{}
 	newBlocks := map[*ssa.Function][]*ssa.BasicBlock{}
 	newRecover := map[*ssa.Function]*ssa.BasicBlock{}
@@ -1065,7 +1067,7 @@ func splitStructs(f *ssa.Function) int {
 			continue
 		}
 		for _, in := range b.Instrs {
-			if a, ok := in.(*ssa.Alloc); ok && structOf(a) != nil && structOf(a).NumFields() > 0 && !materialised[a] {
+			if a, ok := in.(*ssa.Alloc); ok && structOf(a) != nil && structOf(a).NumFields() > 0 {
 				cand[a] = true
 			}
 		}
@@ -1184,6 +1186,9 @@ func splitStructs(f *ssa.Function) int {
 				case *ssa.UnOp:
 					if x.Op != token.MUL {
 						ok = false
+					}
+					if materialised[a] && !loadOK(x) {
+						ok = false // a temporary built to hand out a whole value: splitting it would only build another one
 					}
 				case *ssa.Store:
 					if x.Addr != ssa.Value(a) || x.Val == ssa.Value(a) {
@@ -1462,9 +1467,84 @@ func knownNil(v ssa.Value, p *ssa.BasicBlock, dom map[*ssa.BasicBlock]map[*ssa.B
 	return 0
 }
 
+// mergeStraightLines joins a block that ends in an unconditional jump with its successor when that successor has no other
+// predecessor (inlining leaves such chains: "merge of the helper's results" followed by "rest of the caller's block").
+func mergeStraightLines(f *ssa.Function) int {
+	n := 0
+	for changed := true; changed; {
+		changed = false
+		for _, a := range f.Blocks {
+			if len(a.Succs) != 1 {
+				continue
+			}
+			b := a.Succs[0]
+			if b == a || len(b.Preds) != 1 || b == f.Blocks[0] || b == f.Recover {
+				continue
+			}
+			if _, isJump := lastInstr(a).(*ssa.Jump); !isJump {
+				continue
+			}
+			// single-operand phis of b are just their operand
+			repl := map[ssa.Value]ssa.Value{}
+			var moved []ssa.Instruction
+			for _, in := range b.Instrs {
+				if phi, isPhi := in.(*ssa.Phi); isPhi {
+					if len(phi.Edges) == 1 {
+						repl[phi] = phi.Edges[0]
+					}
+					continue
+				}
+				moved = append(moved, in)
+			}
+			a.Instrs = a.Instrs[:len(a.Instrs)-1]
+			for _, in := range moved {
+				setField(in, "block", a)
+				a.Instrs = append(a.Instrs, in)
+			}
+			a.Succs = b.Succs
+			for _, s := range b.Succs {
+				for k, p := range s.Preds {
+					if p == b {
+						s.Preds[k] = a
+					}
+				}
+			}
+			b.Succs, b.Preds, b.Instrs = nil, nil, nil
+			if len(repl) > 0 {
+				for _, blk := range f.Blocks {
+					for _, in := range blk.Instrs {
+						for _, op := range in.Operands(nil) {
+							if *op != nil {
+								if r, ok := repl[*op]; ok {
+									*op = r
+								}
+							}
+						}
+					}
+				}
+			}
+			var kept []*ssa.BasicBlock
+			for _, blk := range f.Blocks {
+				if blk != b {
+					kept = append(kept, blk)
+				}
+			}
+			for i, blk := range kept {
+				blk.Index = i
+			}
+			f.Blocks = kept
+			n++
+			changed = true
+			break
+		}
+	}
+	return n
+}
+
 func threadJumps(f *ssa.Function) int {
 	total := 0
-	for round := 0; round < 8; round++ {
+	for round := 0; round < 12; round++ {
+		mergeStraightLines(f)
 		delete(domCache, f)
 		dom := domSets(f)
 		users := usersOf(f)
@@ -1474,50 +1554,50 @@ func threadJumps(f *ssa.Function) int {
 			if !ok || len(b.Preds) < 2 || len(b.Succs) != 2 || b.Succs[0] == b.Succs[1] || b == f.Blocks[0] {
 				continue
 			}
-			// not a loop header, and the block holds nothing but phis and the computation of the test
+			// not a loop header; the block holds nothing but phis and instructions that may be repeated on the threaded
+			// edge (computations, loads, stores into local cells): no calls, no sends
 			isHeader := false
 			for _, p := range b.Preds {
 				if p == b || dom[p][b] {
 					isHeader = true
 				}
 			}
-			if isHeader {
+			if isHeader || len(b.Instrs) > 24 {
 				continue
 			}
 			var phis []*ssa.Phi
+			var body []ssa.Instruction
 			inB := map[ssa.Value]bool{}
-			pure := true
+			dupable := true
 			for _, in := range b.Instrs[:len(b.Instrs)-1] {
 				switch x := in.(type) {
 				case *ssa.Phi:
 					phis = append(phis, x)
 					inB[x] = true
-				case *ssa.BinOp:
-					inB[x] = true
-				case *ssa.UnOp:
-					if x.Op != token.NOT {
-						pure = false
-					}
-					inB[x] = true
-				case *ssa.DebugRef:
-				default:
-					pure = false
-				}
-			}
-			if !pure || len(phis) == 0 {
-				continue
-			}
-			for v := range inB {
-				if _, isPhi := v.(*ssa.Phi); isPhi {
 					continue
-				}
-				for _, u := range users[v] {
-					if u.Block() != b {
-						pure = false
+				case *ssa.BinOp, *ssa.FieldAddr, *ssa.IndexAddr, *ssa.Extract, *ssa.ChangeType, *ssa.Convert, *ssa.MakeInterface,
+					*ssa.ChangeInterface, *ssa.Slice, *ssa.Field, *ssa.Index, *ssa.Lookup:
+				case *ssa.UnOp:
+					if x.Op == token.ARROW {
+						dupable = false
 					}
+				case *ssa.Store:
+					if _, local := x.Addr.(*ssa.Alloc); !local {
+						if fa, isFA := x.Addr.(*ssa.FieldAddr); !isFA || baseAllocOf(fa) == nil {
+							dupable = false
+						}
+					}
+				case *ssa.DebugRef:
+					continue
+				default:
+					dupable = false
 				}
+				if v, isVal := in.(ssa.Value); isVal {
+					inB[v] = true
+				}
+				body = append(body, in)
 			}
-			if !pure {
+			if !dupable || len(phis) == 0 {
 				continue
 			}
 			// evaluate the test for the edge from predecessor i
@@ -1536,7 +1616,28 @@ func threadJumps(f *ssa.Function) int {
 						return !r, known
 					}
 				case *ssa.BinOp:
-					if !inB[x] || (x.Op != token.EQL && x.Op != token.NEQ) {
+					if !inB[x] {
+						return false, false
+					}
+					// a comparison of two constants (after taking the phis' operands for this edge)
+					ox, oy := x.X, x.Y
+					if phi, isPhi := ox.(*ssa.Phi); isPhi && phi.Block() == b {
+						ox = phi.Edges[i]
+					}
+					if phi, isPhi := oy.(*ssa.Phi); isPhi && phi.Block() == b {
+						oy = phi.Edges[i]
+					}
+					if cx, okx := ox.(*ssa.Const); okx && cx.Value != nil {
+						if cy, oky := oy.(*ssa.Const); oky && cy.Value != nil {
+							switch x.Op {
+							case token.EQL, token.NEQ, token.LSS, token.LEQ, token.GTR, token.GEQ:
+								if cx.Value.Kind() == cy.Value.Kind() && cx.Value.Kind() != constant.Unknown {
+									return constant.Compare(cx.Value, x.Op, cy.Value), true
+								}
+							}
+						}
+					}
+					if x.Op != token.EQL && x.Op != token.NEQ {
 						return false, false
 					}
 					var other ssa.Value
@@ -1550,6 +1651,8 @@ func threadJumps(f *ssa.Function) int {
 					}
 					if phi, isPhi := other.(*ssa.Phi); isPhi && phi.Block() == b {
 						other = phi.Edges[i]
+					} else if inB[other] {
+						return false, false
 					}
 					switch knownNil(other, b.Preds[i], dom) {
 					case 1:
@@ -1577,35 +1680,146 @@ func threadJumps(f *ssa.Function) int {
 				if r {
 					to = b.Succs[0]
 				}
-				// the target's phis must be extendable: their operand for b is a phi of b (take its operand) or defined elsewhere
-				okTarget := to != b
-				for _, in := range to.Instrs {
-					tp, isPhi := in.(*ssa.Phi)
-					if !isPhi {
-						break
-					}
-					j := predIndex(to, b)
-					if j < 0 || j >= len(tp.Edges) {
-						okTarget = false
-						break
-					}
-					if inB[tp.Edges[j]] {
-						if _, isPhi := tp.Edges[j].(*ssa.Phi); !isPhi {
-							okTarget = false
-						}
-					}
-				}
-				if okTarget {
+				if to != b && predIndex(to, b) >= 0 {
 					plans = append(plans, plan{i, to})
 				}
 			}
 			if len(plans) == 0 {
 				continue
 			}
-			// (highest predecessor index first, so that the remaining indices stay valid while edges are moved; the phi operands
-			// of the targets are appended in the same order as the predecessors)
+			// (highest predecessor index first, so that the remaining indices stay valid while edges are moved)
 			sort.Slice(plans, func(x, y int) bool { return plans[x].pred > plans[y].pred })
-			// extend the targets' phis (before the phis of b disappear)
+			entry := f.Blocks[0]
+			newCell := func(t types.Type, comment string, pos token.Pos) *ssa.Alloc {
+				cell := &ssa.Alloc{Comment: comment}
+				setField(cell, "typ", types.NewPointer(t))
+				setField(cell, "pos", pos)
+				setField(cell, "block", entry)
+				entry.Instrs = append([]ssa.Instruction{cell}, entry.Instrs...)
+				f.Locals = append(f.Locals, cell)
+				return cell
+			}
+			insertBefore := func(at *ssa.BasicBlock, before ssa.Instruction, in ssa.Instruction) {
+				setField(in, "block", at)
+				var out []ssa.Instruction
+				for _, x := range at.Instrs {
+					if x == before {
+						out = append(out, in)
+					}
+					out = append(out, x)
+				}
+				at.Instrs = out
+			}
+			// loads replacing the uses of a value of b that lie outside b (or in phis elsewhere)
+			replaceOutsideUses := func(v ssa.Value, cell *ssa.Alloc) {
+				for _, u := range users[v] {
+					if up, isPhi := u.(*ssa.Phi); isPhi {
+						if up.Block() == b {
+							continue
+						}
+						for m, e := range up.Edges {
+							if e == v && m < len(up.Block().Preds) {
+								pm := up.Block().Preds[m]
+								l := &ssa.UnOp{Op: token.MUL, X: cell}
+								setField(l, "typ", v.Type())
+								setField(l, "pos", v.Pos())
+								insertBefore(pm, lastInstr(pm), l)
+								up.Edges[m] = l
+							}
+						}
+						continue
+					}
+					if u.Block() == b {
+						if _, isPhiVal := v.(*ssa.Phi); !isPhiVal {
+							continue // later instructions of b use the value itself
+						}
+					}
+					l := &ssa.UnOp{Op: token.MUL, X: cell}
+					setField(l, "typ", v.Type())
+					setField(l, "pos", v.Pos())
+					insertBefore(u.Block(), u, l)
+					for _, op := range u.Operands(nil) {
+						if *op == v {
+							*op = l
+						}
+					}
+				}
+			}
+			// the copies of b's instructions for each threaded edge are made first (they refer to the phis' operands directly)
+			type copyOf struct {
+				blk  *ssa.BasicBlock
+				vmap map[ssa.Value]ssa.Value
+			}
+			copies := map[int]copyOf{}
+			// demote the non-phi values of b that are used outside b: a store right after the definition
+			cells := map[ssa.Value]*ssa.Alloc{}
+			for _, in := range body {
+				v, isVal := in.(ssa.Value)
+				if !isVal {
+					continue
+				}
+				outside := false
+				for _, u := range users[v] {
+					if _, isPhi := u.(*ssa.Phi); isPhi || u.Block() != b {
+						outside = true
+					}
+				}
+				if !outside {
+					continue
+				}
+				cell := newCell(v.Type(), v.Name(), v.Pos())
+				cells[v] = cell
+				st := &ssa.Store{Addr: cell, Val: v}
+				setField(st, "block", b)
+				var out []ssa.Instruction
+				for _, x := range b.Instrs {
+					out = append(out, x)
+					if x == in {
+						out = append(out, st)
+					}
+				}
+				b.Instrs = out
+			}
+			// refresh the list of instructions to copy (the new stores belong to it)
+			body = body[:0]
+			for _, in := range b.Instrs[:len(b.Instrs)-1] {
+				switch in.(type) {
+				case *ssa.Phi, *ssa.DebugRef:
+					continue
+				}
+				body = append(body, in)
+			}
+			for _, pl := range plans {
+				e := &ssa.BasicBlock{Comment: "threaded"}
+				setField(e, "parent", f)
+				vm := map[ssa.Value]ssa.Value{}
+				for _, phi := range phis {
+					vm[phi] = phi.Edges[pl.pred]
+				}
+				for _, in := range body {
+					cl := cloneInstr(in)
+					for _, op := range cl.Operands(nil) {
+						if *op != nil {
+							if n, ok := vm[*op]; ok {
+								*op = n
+							}
+						}
+					}
+					setField(cl, "block", e)
+					e.Instrs = append(e.Instrs, cl)
+					if v, isVal := in.(ssa.Value); isVal {
+						vm[v] = cl.(ssa.Value)
+					}
+					if orig, ok := canonOrigOf[in]; ok {
+						canonOrigOf[cl] = orig
+					}
+				}
+				j := &ssa.Jump{}
+				setField(j, "block", e)
+				e.Instrs = append(e.Instrs, j)
+				copies[pl.pred] = copyOf{e, vm}
+			}
+			// extend the targets' phis (operands defined in b are taken from the copy)
 			for _, pl := range plans {
 				j := predIndex(pl.to, b)
 				for _, in := range pl.to.Instrs {
@@ -1614,76 +1828,44 @@ func threadJumps(f *ssa.Function) int {
 						break
 					}
 					v := tp.Edges[j]
-					if phi, isP := v.(*ssa.Phi); isP && phi.Block() == b {
-						v = phi.Edges[pl.pred]
+					if n, ok := copies[pl.pred].vmap[v]; ok {
+						v = n
 					}
 					tp.Edges = append(tp.Edges, v)
 				}
 			}
+			for v, cell := range cells {
+				replaceOutsideUses(v, cell)
+			}
 			// demote the phis of b
-			entry := f.Blocks[0]
 			for _, phi := range phis {
-				cell := &ssa.Alloc{Comment: phi.Comment}
-				setField(cell, "typ", types.NewPointer(phi.Type()))
-				setField(cell, "pos", phi.Pos())
-				setField(cell, "block", entry)
-				entry.Instrs = append([]ssa.Instruction{cell}, entry.Instrs...)
-				f.Locals = append(f.Locals, cell)
+				cell := newCell(phi.Type(), phi.Comment, phi.Pos())
 				for i, p := range b.Preds {
 					st := &ssa.Store{Addr: cell, Val: phi.Edges[i]}
-					setField(st, "block", p)
-					n := len(p.Instrs)
-					p.Instrs = append(p.Instrs[:n-1:n-1], st, p.Instrs[n-1])
+					insertBefore(p, lastInstr(p), st)
 				}
-				for _, u := range users[phi] {
-					mkLoad := func(at *ssa.BasicBlock, before ssa.Instruction) *ssa.UnOp {
-						l := &ssa.UnOp{Op: token.MUL, X: cell}
-						setField(l, "typ", phi.Type())
-						setField(l, "pos", phi.Pos())
-						setField(l, "block", at)
-						var out []ssa.Instruction
-						for _, in := range at.Instrs {
-							if in == before {
-								out = append(out, l)
-							}
-							out = append(out, in)
-						}
-						at.Instrs = out
-						return l
-					}
-					if up, isPhi := u.(*ssa.Phi); isPhi {
-						for m, e := range up.Edges {
-							if e == ssa.Value(phi) && m < len(up.Block().Preds) {
-								pm := up.Block().Preds[m]
-								up.Edges[m] = mkLoad(pm, lastInstr(pm))
-							}
-						}
-						continue
-					}
-					l := mkLoad(u.Block(), u)
-					for _, op := range u.Operands(nil) {
-						if *op == ssa.Value(phi) {
-							*op = l
-						}
-					}
-				}
+				replaceOutsideUses(phi, cell)
 			}
 			gone := map[ssa.Instruction]bool{}
 			for _, phi := range phis {
 				gone[phi] = true
 			}
 			removeInstrs(f, gone)
-			// retarget the decided edges
+			// retarget the decided edges through their copies
 			for _, pl := range plans {
 				p := b.Preds[pl.pred]
+				e := copies[pl.pred].blk
 				for k, s := range p.Succs {
 					if s == b {
-						p.Succs[k] = pl.to
+						p.Succs[k] = e
 						break
 					}
 				}
 				b.Preds = append(b.Preds[:pl.pred:pl.pred], b.Preds[pl.pred+1:]...)
-				pl.to.Preds = append(pl.to.Preds, p)
+				e.Preds = []*ssa.BasicBlock{p}
+				e.Succs = []*ssa.BasicBlock{pl.to}
+				pl.to.Preds = append(pl.to.Preds, e)
+				f.Blocks = append(f.Blocks, e)
 			}
 			total += len(plans)
 			done = true
@@ -1697,3 +1879,22 @@ func threadJumps(f *ssa.Function) int {
 	}
 	return total
 }
+
+// baseAllocOf: the local cell a chain of field addresses starts from, if any.
+func baseAllocOf(fa *ssa.FieldAddr) *ssa.Alloc {
+	var v ssa.Value = fa
+	for {
+		switch x := v.(type) {
+		case *ssa.FieldAddr:
+			v = x.X
+		case *ssa.Alloc:
+			return x
+		default:
+			return nil
+		}
+	}
+}
+
+// canonOrigOf: clone -> original instruction, shared with the inliner so that copies made by later passes still resolve
+// their call-graph edges.
+var canonOrigOf map[ssa.Instruction]ssa.Instruction
